@@ -48,6 +48,7 @@ void h_scanPI(void)
   VERIF_ASSUME(XMLCHAR['?'] && XMLCHAR['>'] && XMLCHAR[0x20] && XMLCHAR[0x9] && XMLCHAR[0xA] && XMLCHAR[0xD]);
   VERIF_ASSUME(!NAMECH['?'] && !NAMECH[0x20] && !NAMECH[0x9] && !NAMECH[0xA] && !NAMECH[0xD] && !FIRSTNAMECH['?'] && !FIRSTNAMECH[0x20] && !FIRSTNAMECH[0x9] && !FIRSTNAMECH[0xA] && !FIRSTNAMECH[0xD]);
   POS = 0; ERR_COUNT = 0; ERR_FATAL_COUNT = 0; DOC_EVENTS = 0; DOC2_EVENTS = 0; OUT_OVERFLOW = 0; OUTLEN = 0; verif_thrown = 0;
+  assume_surrogates_not_char();
   XMLScanner_scanPI();
   VERIF_CANARY("after call");
 
@@ -71,7 +72,7 @@ void h_scanPI(void)
         if (c >= 0xD800 && c <= 0xDBFF) {
           if (i + 1 < LEN && INPUT.a[i + 1] >= 0xDC00 && INPUT.a[i + 1] <= 0xDFFF) { data[dlen++] = c; data[dlen++] = INPUT.a[i + 1]; i += 2; continue; }
           wf = 0;
-        } else if (!XMLCHAR[c]) wf = 0;
+        } else if ((c >= 0xDC00 && c <= 0xDFFF) || !XMLCHAR[c]) wf = 0;
         data[dlen++] = c; i++;
       }
       if (!closed) wf = 0;
